@@ -39,7 +39,7 @@ import re
 import symtable
 from typing import Dict, List, Set
 
-from .program import (AnalysisError, Func, call_name, unparse,
+from .program import (AnalysisError, Func, call_name, dotted, unparse,
                       walk_no_nested)
 
 HERE = os.path.dirname(os.path.dirname(os.path.abspath(__file__)))
@@ -309,6 +309,40 @@ def run(ctx, prop: str):
                                         o[0].arg, unparse(o[0].value)),
                                     key='swapped-arguments:%s' %
                                     call_name(c))
+    # issubclass / isinstance asked the wrong way round: a class *constant*
+    # (CamelCase last component) in the object slot and a variable in the
+    # class slot.  Every such test in the package asks whether a variable's
+    # type is a kind of a named class.
+    ctx.rule('R-%s.92' % pid)
+
+    def _class_const(e):
+        if isinstance(e, ast.Tuple):
+            return bool(e.elts) and all(_class_const(x) for x in e.elts)
+        d = dotted(e)
+        if not d:
+            return False
+        last = d.split('.')[-1]
+        return last[:1].isupper() and not last.isupper()
+    n_kind = 0
+    for m in mods:
+        for f in m.all_funcs():
+            for c in walk_no_nested(f.node, include_lambda=True):
+                if not (isinstance(c, ast.Call) and
+                        isinstance(c.func, ast.Name) and
+                        c.func.id in ('issubclass', 'isinstance') and
+                        len(c.args) == 2 and not c.keywords):
+                    continue
+                n_kind += 1
+                if _class_const(c.args[0]) and not _class_const(c.args[1]):
+                    swap_bad = True
+                    ctx.finding(f, c, '%s asks %s: whether the named class '
+                                'is a kind of the variable, which is false '
+                                'for every proper subclass the variable may '
+                                'hold (the two arguments are in each '
+                                'other\'s places)' % (
+                                    f.qualname, unparse(c)),
+                                key='swapped-arguments:%s' % c.func.id)
+    ctx.counts['R-%s.92 isinstance/issubclass tests' % pid] = n_kind
     ctx.rule('R-%s.91' % pid)
     ctx.counts['R-%s.91 calls with a resolved package callee' % pid] = n_calls
     if not sig_bad:
